@@ -136,6 +136,8 @@ fn gen_store(r: &mut Rng) -> Vec<Res> {
         res("unknown.bin", &[], "application/x-unknown", &[0, 159, 146, 150]),
         res("style.css", &["css"], "text/css", b"a{}"),
         res("x", &["y:3"], "text/html", b"<p>"),
+        // a script whose extension-less name is NOT one of its aliases (`$redirect=bare` names nothing)
+        res("bare.js", &["barejs"], "application/javascript", b"bare()"),
         // one resource of every remaining redirectable MIME kind
         res("vmap.xml", &["noop-vmap1.0.xml"], "text/xml", b"<vmap/>"),
         res("empty.json", &[], "application/json", b"{}"),
@@ -380,7 +382,7 @@ const NAMES: &[&str] = &[
     "noop.js", "noop.js", "noop.js", "noop.txt", "noop.txt", "1x1.gif", "1x1.gif", "style.css", "noopjs", "noopjs", "noop.js", "noop.js", "noopjs", "noop", "noop.txt", "nooptext", "1x1.gif", "1x1-transparent.gif", "fn.js", "tmpl.js", "tmpl",
     "perm.js", "permjs", "perm.txt", "missing.js", "unknown.bin", "style.css", "other", "sec", "second.txt", "bad.js", "latin1.js",
     "deps.txt", "deps.js", "badtmpl.js", "x", "y", "y:3", "self.txt", "selfalias", "NOOP.JS",
-    "vmap.xml", "noop-vmap1.0.xml", "empty.json", "noop.mp4", "mp4", "noop.mp3", "2x2.png", "noop.html",
+    "bare", "bare", "bare.js", "barejs", "vmap", "vmap.xml", "noop-vmap1.0.xml", "empty.json", "noop.mp4", "mp4", "noop.mp3", "2x2.png", "noop.html",
 ];
 const SUFFIXES: &[&str] = &[
     "", "", "", "", "", ":10", ":10", ":-1", ":1", ":1", ":2", ":10", ":-1", ":x", ":", ":+3", ":2147483648", ":2147483647", ":-2147483648", ":-2147483649", ":007", ":1 ",
